@@ -17,9 +17,9 @@ LEVEL = "exploration"
 
 PLAN = {
     "quick": {"hashseeds": 12, "shards": 4, "generated": 240, "skip": ["1gid.cif.gz"], "cli_all_variants": False,
-              "timeout": 600, "light_hashseeds": 16, "light_max_cost": 150_000, "adapter_generated": 36, "derived_rounds": 1, "unifier_generated": 8, "pairfuzz": 10},
+              "timeout": 600, "light_hashseeds": 16, "light_max_cost": 150_000, "adapter_generated": 36, "derived_rounds": 1, "unifier_generated": 8, "pairfuzz": 10, "crossmap": 4},
     "thorough": {"hashseeds": 48, "shards": 4, "generated": 4000, "skip": [], "cli_all_variants": True,
-                 "timeout": 5400, "light_hashseeds": 80, "light_max_cost": 150_000, "adapter_generated": 600, "derived_rounds": 8, "unifier_generated": 120, "pairfuzz": 120},
+                 "timeout": 5400, "light_hashseeds": 80, "light_max_cost": 150_000, "adapter_generated": 600, "derived_rounds": 8, "unifier_generated": 120, "pairfuzz": 120, "crossmap": 40},
 }
 
 ASSUMPTIONS = [
@@ -27,7 +27,8 @@ ASSUMPTIONS = [
     "addresses (fresh interpreters), repeated computation in one process on freshly built objects, what ran earlier "
     "in the process (per-interpreter visiting order), log verbosity (every third interpreter at LOGLEVEL=DEBUG), the "
     "wall clock (interpreters live 0, 401, 802 or 1203 days ahead; monotonic clocks untouched), the interpreter's "
-    "optimisation flag (every fourth interpreter runs with PYTHONOPTIMIZE=1)",
+    "optimisation flag (every fourth interpreter runs with PYTHONOPTIMIZE=1), the working directory (root, the "
+    "directory above the corpus, a scratch directory)",
     "corpus = every non-empty .cif/.pdb/.cif.gz under /repo/tests (quick tier skips the slow 1gid.cif.gz), each "
     "with find_gaps in {False, True}; generated secondary structures are seeded and biased towards several "
     "independent knotted groups so that the all-dot-brackets list has >= 2 members",
@@ -164,6 +165,18 @@ def pairfuzz_items(tier, seed):
     return out
 
 
+def crossmap_items(tier, seed):
+    """Stems of a complete structure evaluated on a model of it that lacks a residue (a reference 2D structure
+    scored on an incomplete 3D model): stem coordinates, inter-stem parameters, PyMOL script."""
+    out = []
+    for i in range(PLAN[tier]["crossmap"]):
+        s = rng.stream(NAME, tier, seed, i, "crossmap")
+        src = os.path.join(TESTS, s.choice(["1ATO.pdb", "488d.pdb", "4qln.pdb"]))
+        if os.path.exists(src):
+            out.append({"id": "crossmap/%d" % i, "type": "crossmap", "source": src, "gen_seed": s.getrandbits(48), "cost": 200000})
+    return out
+
+
 def unifier_generated_items(tier, seed):
     out = []
     for i in range(PLAN[tier]["unifier_generated"]):
@@ -217,6 +230,15 @@ def clock_skew_of(hs):
     return (int(hs) % 4) * 401
 
 
+def cwd_of(hs, tmp):
+    """The working directory of the interpreter under hash seed `hs`: the file-system root, the directory above the
+    corpus (so that the inputs lie below it) or a scratch directory.  Inputs and outputs are given as absolute
+    paths, so no output has a reason to depend on it."""
+    if hs == "random":
+        return tmp
+    return ["/", os.path.dirname(TESTS), tmp][int(hs) % 3]
+
+
 def launch(jobs, workers, timeout, tmp):
     """jobs: list of (tag, hashseed, manifest path, out path[, extra env]).  Runs at most `workers` at a time."""
     pending = list(jobs)
@@ -241,7 +263,7 @@ def launch(jobs, workers, timeout, tmp):
             if len(job) > 4:
                 env.update(job[4])
             errf = open(opath + ".err", "wb")
-            p = subprocess.Popen([sys.executable, CHILD, mpath, opath], env=env,
+            p = subprocess.Popen([sys.executable, CHILD, mpath, opath], env=env, cwd=cwd_of(hs, tmp),
                                  stdout=subprocess.DEVNULL, stderr=errf)
             errf.close()
             running.append((tag, p, opath + ".err"))
@@ -414,7 +436,8 @@ def check(tier, seed, workers):
     tmp = os.path.join(runner.base_tmp(), "c14")
     seeds = hashseeds(tier, seed)
     items = (corpus_items(tier) + tool_items(tier) + generated_items(tier, seed) + adapter_generated_items(tier, seed)
-             + derived_items(tier, seed) + unifier_generated_items(tier, seed) + pairfuzz_items(tier, seed))
+             + derived_items(tier, seed) + unifier_generated_items(tier, seed) + pairfuzz_items(tier, seed)
+             + crossmap_items(tier, seed))
     timeout = float(os.environ.get("VERIF_BUDGET_S") or 0) * 4 or plan["timeout"]
     context = {}
     cells, nontrivial, rows_total, failures = explore(items, seeds, plan["shards"], workers, timeout, tmp,
